@@ -1,6 +1,7 @@
 import CentrifugeVerif.DriverLib
 import CentrifugeVerif.Model.Live
 import CentrifugeVerif.Model.Medium
+import CentrifugeVerif.Model.Dissolve
 /-!
 Driver for C38: one scenario per line (syntax: props/C38/harness/root/zz_verif_c38_test.go).
 The medium model (`Medium.step`) is driven with the harness's timing discipline: before an event at
@@ -27,6 +28,9 @@ structure Sim where
   shift : Nat := 0
   goneAt : Option Nat := none   -- when the last subscriber left (the dissolver closes the medium 1 s later)
   racy : Bool := false
+  gated : Bool := false         -- the harness holds the writer inside every broadcast until a token arrives
+  credits : Nat := 0
+  held : Option Item := none    -- removed from the queue, waiting at the gate
 
 def deliverOne (it : Item) (s : SubSt) : SubSt :=
   match s.sub with
@@ -85,12 +89,27 @@ def Sim.drain (m : Sim) (now : Nat) : Nat → Sim
   | 0 => m
   | fuel + 1 => if m.q.isEmpty then m else (m.writerPass now).drain now fuel
 
+/-- gated writer (delay = 0): take the next item out of the queue, wait for a token, broadcast, repeat -/
+def Sim.pump (m : Sim) (now : Nat) : Nat → Sim
+  | 0 => m
+  | fuel + 1 =>
+    match m.held with
+    | none =>
+      match m.q with
+      | [] => m
+      | first :: rest => ({ m with q := rest, held := some first }).pump now fuel
+    | some it =>
+      if m.credits > 0 then
+        (({ m with credits := m.credits - 1, held := none } : Sim).broadcast now [it]).pump now fuel
+      else m
+
 def Sim.arrive (m : Sim) (now : Nat) (it : Item) : Sim :=
   if !m.medium then m.broadcast now [it]
   else
     let (q1, b) := step m.o m.q (.arrive it)
     let m1 := { m with q := q1 }.broadcast now b
     if !m.o.queue then m1
+    else if m.gated then m1.pump now (2 * q1.length + 4)
     else if m.o.delay = 0 then m1.drain now (q1.length + 1)
     else if m1.wake.isNone && !q1.isEmpty then { m1 with wake := some (now + m.o.delay) } else m1
 
@@ -132,6 +151,14 @@ def Sim.event (m : Sim) (parts : List String) : Option Sim :=
           some (m.arrive t (.pub { offset := o, size := max sz 2, epoch := ep }))
         | _, _ => none
       | "insuff", _ => some (if m.medium then m.arrive t .insuff else m)
+      | "rel", n :: _ =>
+        match n.toNat? with
+        | some n =>
+          if m.gated then
+            let m1 : Sim := { m with credits := m.credits + n }
+            some (m1.pump t (2 * (m1.q.length + n) + 4))
+          else some m
+        | none => none
       | "check", i :: top :: _ =>
         match i.toNat?, top.toNat? with
         | some i, some top =>
@@ -150,6 +177,29 @@ def showSub (i : Nat) (s : SubSt) : String :=
     | none => "-"
   s!"s{i}={s.kind}/{joinWith "+" (s.pushes.map toString)}/{s.ending}/{pos}"
 
+/-! `q` lines: publicationQueue itself against the ring model (`Dissolve.Queue`: the same algorithm field
+by field; `size` = Σ len(Data) of the queued publications, markers count 0). -/
+def qShow (q : Dissolve.Queue) (ins : List Nat) : String :=
+  let size := ((Dissolve.abs q).filter (fun j => !ins.contains j)).foldl (fun a j => a + (j % 5 + 1)) 0
+  s!"{q.cnt}/{q.nodes.length}/{size}"
+
+def qGo : List String → Dissolve.Queue → Nat → List Nat → List String → List String
+  | [], _, _, _, acc => acc.reverse
+  | op :: rest, q, id, ins, acc =>
+    if op == "a" || op == "i" then
+      let ins := if op == "i" then (id + 1) :: ins else ins
+      match Dissolve.add q (id + 1) with
+      | some (q', _) => qGo rest q' (id + 1) ins (s!"a:{qShow q' ins}" :: acc)
+      | none => ("MODEL-PANIC" :: acc).reverse
+    else if op == "r" then
+      match Dissolve.remove q with
+      | some (q', none) => qGo rest q' id ins (s!"r:-:{qShow q' ins}" :: acc)
+      | some (q', some j) =>
+        let tag := if ins.contains j then s!"I{j}" else toString j
+        qGo rest q' id ins (s!"r:{tag}:{qShow q' ins}" :: acc)
+      | none => ("MODEL-PANIC" :: acc).reverse
+    else ("bad-op" :: acc).reverse
+
 def step38 (line : String) : String :=
   let ws := words line
   match ws with
@@ -167,15 +217,25 @@ def step38 (line : String) : String :=
       joinWith " " (["sub=disc:3004", "bc=none"] ++ subs)
     else
       let subs : List SubSt := kinds.map fun k => { kind := k, sub := some { pos := top, epoch := 1 } }
-      let m0 : Sim := { o := o, medium := medium, subs := subs }
+      let gated := medium && g "gate" == "1" && o.queue && o.delay == 0
+      let m0 : Sim := { o := o, medium := medium, subs := subs, gated := gated }
       let evs := if g "ev" == "" || g "ev" == "-" then [] else (g "ev").splitOn ";"
       let r := evs.foldl (fun (acc : Option Sim) ev => acc.bind fun m => m.event (ev.splitOn ":")) (some m0)
       match r with
       | none => "bad-op"
       | some m =>
+        -- the harness opens the gate for good before the end
+        let m := if m.gated then
+            let m1 : Sim := { m with credits := m.credits + 1000000 }
+            m1.pump (n "end" + m.shift) (2 * m1.q.length + 8)
+          else m
         let m := m.advance (n "end" + m.shift) 100000
         let bc := if medium then "bc=" ++ joinWith "," m.bc else "bc=none"
         joinWith " " ((if m.racy then ["racy"] else []) ++ ["sub=ok", bc] ++ m.subs.mapIdx showSub)
+  | "q" :: _ =>
+    let cap := (kvNat ws "cap").getD 2
+    let ops := ((kv ws "ops").getD "").splitOn ","
+    joinWith " " (qGo ops (Dissolve.newQueue cap) 0 [] [])
   | _ => "bad-op"
 
 def main : IO Unit := runPure step38
